@@ -155,6 +155,11 @@ type Check struct {
 	Probes []string
 	// Extra is merged into coverage.
 	Extra func(st *Stats) map[string]any
+	// SimTime names the unit of simulated time for this check and the counters
+	// that add up to it (there is no wall clock in this library: simulated time
+	// is logical events - interpreter ticks, I/O calls, scheduler steps).
+	SimTimeUnit     string
+	SimTimeCounters []string
 }
 
 // ReplayFile is the on-disk form of a violation.
@@ -417,6 +422,22 @@ func (ck *Check) Main(args []string) {
 		"runs_per_hour":                  int64(float64(evals) / wall * 3600),
 		"real_vs_stub":                   ck.RealStub,
 		"known_findings_hit":             keys,
+	}
+	if ck.SimTimeUnit != "" {
+		var sum int64
+		for _, k := range ck.SimTimeCounters {
+			sum += total.Counters[k]
+		}
+		cov["simulated_time"] = map[string]any{"unit": ck.SimTimeUnit, "events": sum, "events_per_hour": int64(float64(sum) / wall * 3600)}
+	}
+	fk := map[string]int64{}
+	for k, v := range total.Counters {
+		if strings.HasPrefix(k, "fired_") {
+			fk[k[6:]] = v
+		}
+	}
+	if len(fk) > 0 {
+		cov["fault_kinds_fired"] = fk
 	}
 	if ck.Extra != nil {
 		for k, v := range ck.Extra(total) {
